@@ -6,6 +6,7 @@ moved, agreement of the parallel queues, snapshot iteration while moving, discon
 the emptied shells.  That the elaborated design is the same before and after is a graph property of runtime netlists
 and is NOT decided."""
 import ast
+import re
 
 from ..core import AnalysisError, norm, short, walk_local, parent_chain, reaching_assign
 from ..cfg import cfg_of, forward, Branch, node_exprs
@@ -111,6 +112,74 @@ def _check_counter(R, rid, f, counter):
               "generated names collide" % (f.qualname, counter, "increments per call: %s" % sorted(at_exit)))
 
 
+def _recorded_exactly_for_non_leaves(w, st_sh):
+    """every way through one iteration of the work loop `w` records the instance for removal (statement st_sh) exactly when the leaf
+    test came out false; None when the loop body is outside what path enumeration models"""
+    from ..paths import stmt_paths
+    from ..core import copy_tree
+    mark = ast.Assign(targets=[ast.Name(id="__recorded", ctx=ast.Store())], value=ast.Constant(value=True))
+    want = norm(st_sh)
+    hit = [0]
+
+    def swap(stmts):
+        out = []
+        for st in stmts:
+            if norm(st) == want and isinstance(st, ast.Expr):
+                hit[0] += 1
+                out.append(ast.copy_location(copy_tree(mark), st))
+                continue
+            if isinstance(st, (ast.For, ast.While)):
+                out.append(st)  # nested loops are opaque to the enumeration
+                continue
+            for fld in ("body", "orelse"):
+                sub = getattr(st, fld, None)
+                if isinstance(sub, list) and sub and isinstance(sub[0], ast.stmt):
+                    setattr(st, fld, swap(sub))
+            out.append(st)
+        return out
+    body = swap(copy_tree(list(w.body)))
+    if hit[0] != 1:
+        return None
+    n = 0
+    for oc, fa, df in stmt_paths(body, frozenset(), {}, None, None, opaque_loops=True):
+        if oc is None:
+            return None
+        if oc == "raise":
+            continue
+        if oc not in ("fall", "continue"):
+            return False  # leaves the work loop for good
+        n += 1
+        leaf = any(re.match(r"truthy\(.*\.is_leaf\(\)\)$", a) for a in fa)
+        nonleaf = any(re.match(r"(falsy\(.*\.is_leaf\(\)\)|(is|eq)\(.*\.is_leaf\(\),False\))$", a) for a in fa)
+        recorded = "__recorded" in df
+        if recorded != nonleaf or (not leaf and not nonleaf):
+            return False
+    return n > 0
+
+
+def _number(node):
+    """document order of the nodes of a view: line numbers do not order code that was spliced in from elsewhere"""
+    i = 0
+    todo = [node]
+    while todo:
+        n = todo.pop()
+        n._ord = i
+        i += 1
+        todo.extend(reversed(list(ast.iter_child_nodes(n))))
+
+
+def _pos(n):
+    o = getattr(n, "_ord", None)
+    if o is None:
+        # a node of a tree that was not numbered yet: number its function
+        root = n
+        while getattr(root, "_parent", None) is not None and not isinstance(root, (ast.FunctionDef, ast.AsyncFunctionDef)):
+            root = root._parent
+        _number(root)
+        o = getattr(n, "_ord", 0)
+    return o
+
+
 def _canon(P, f, keep=()):
     """view of a work-list function in one canonical form: private helpers spliced in (except `keep`), single-assignment aliases of
     attribute chains substituted, `Q.extend(E)` / `Q = deque(E)` written as loops of `Q.append(...)`, adjacent loops over the same
@@ -119,23 +188,103 @@ def _canon(P, f, keep=()):
     from ..core import FuncInfo, copy_tree
     g = inlined_view(P, f, keep=keep)
     node = copy_tree(g.node)
-    # aliases
+    # aliases: a single-assignment local that holds a plain attribute read (`ref = inst.reference`) or a copy of another
+    # single-assignment local is replaced by what it stands for at the uses that follow — but only where nothing in between could have
+    # changed what the attribute read gives (a call that receives the root object, a store to one of its attributes): `children =
+    # inst.reference.children` taken before the instance is re-pointed is not the same as reading it afterwards
     stores = {}
     for n in ast.walk(node):
         if isinstance(n, ast.Name) and isinstance(n.ctx, ast.Store):
             stores[n.id] = stores.get(n.id, 0) + 1
+    params = {a_.arg for a_ in node.args.args}
+    _number(node)
+
+    def root_of(e):
+        while isinstance(e, ast.Attribute):
+            e = e.value
+        return e.id if isinstance(e, ast.Name) else None
     alias = {}
     for n in ast.walk(node):
-        if isinstance(n, ast.Assign) and len(n.targets) == 1 and isinstance(n.targets[0], ast.Name) and stores.get(n.targets[0].id) == 1 \
-                and isinstance(n.value, ast.Attribute) and norm(n.value).endswith((".children", ".cables", ".ports", ".pins")):
-            alias[n.targets[0].id] = n.value
+        if not (isinstance(n, ast.Assign) and len(n.targets) == 1):
+            continue
+        pairs = []
+        if isinstance(n.targets[0], ast.Name):
+            pairs = [(n.targets[0], n.value)]
+        elif isinstance(n.targets[0], ast.Tuple) and isinstance(n.value, ast.Tuple) and len(n.targets[0].elts) == len(n.value.elts) \
+                and all(isinstance(t, ast.Name) for t in n.targets[0].elts):
+            pairs = list(zip(n.targets[0].elts, n.value.elts))
+        for t, v in pairs:
+            if stores.get(t.id) != 1 or t.id in params:
+                continue
+            r = root_of(v)
+            if r is None or not (stores.get(r, 0) <= 1):
+                continue
+            if isinstance(v, ast.Name) and stores.get(v.id) == 1 and re.search(r"__[gi]\d+$", v.id):
+                alias[t.id] = (v, n._ord)  # a copy of a local the inliner introduced (walker generator fused with its consumer)
+            elif isinstance(v, ast.Attribute) and v.attr in ("children", "cables", "ports", "pins", "reference", "name"):
+                alias[t.id] = (v, n._ord)
+    disturb = []  # (first ord, last ord, root name): constructs that may change what `root.attr…` reads as
+    for n in ast.walk(node):
+        last = max(getattr(x, "_ord", 0) for x in ast.walk(n)) if isinstance(n, (ast.Call, ast.Assign, ast.AugAssign, ast.Delete)) else 0
+        if isinstance(n, ast.Call):
+            for a_ in n.args:
+                if isinstance(a_, ast.Name):
+                    disturb.append((n._ord, last, a_.id))
+            if isinstance(n.func, ast.Attribute) and isinstance(n.func.value, ast.Name):
+                disturb.append((n._ord, last, n.func.value.id))
+        elif isinstance(n, (ast.Assign, ast.AugAssign, ast.Delete)):
+            tg = n.targets if isinstance(n, (ast.Assign, ast.Delete)) else [n.target]
+            for t in tg:
+                for x in ast.walk(t):
+                    if isinstance(x, ast.Attribute) and isinstance(x.ctx, (ast.Store, ast.Del)) and root_of(x) is not None:
+                        disturb.append((n._ord, last, root_of(x)))
+
+    def resolve(name, at, depth=0):
+        """what `name`, read at position `at`, stands for (an expression), or None"""
+        if name not in alias or depth > 4:
+            return None
+        v, d = alias[name]
+        if not d < at:
+            return None
+        if isinstance(v, ast.Attribute):
+            r = root_of(v)
+            # the root itself may be an alias (ref = inst.reference; kids = ref.children)
+            names = {r}
+            if any(d < first and last < at and rn in names for first, last, rn in disturb):
+                return None
+        out = copy_tree(v)
+        # resolve the root of the chain in turn
+        r = root_of(v)
+        inner = resolve(r, d, depth + 1) if r is not None else None
+        if inner is not None:
+            class S(ast.NodeTransformer):
+                def visit_Name(self, x):
+                    return copy_tree(inner) if x.id == r and isinstance(x.ctx, ast.Load) else x
+            out = S().visit(out)
+            if isinstance(inner, ast.Attribute) or isinstance(v, ast.Attribute):
+                r2 = root_of(out)
+                if any(d < first and last < at and rn == r2 for first, last, rn in disturb):
+                    return None
+        return out
 
     class A(ast.NodeTransformer):
         def visit_Name(self, n):
             if isinstance(n.ctx, ast.Load) and n.id in alias:
-                return ast.copy_location(copy_tree(alias[n.id]), n)
+                e = resolve(n.id, n._ord)
+                if e is not None:
+                    return ast.copy_location(e, n)
             return n
     node = A().visit(node)
+
+    class Pub(ast.NodeTransformer):
+        """reads of a container's private field (spliced in from a private IR helper) are reads of the public view of the same list"""
+        def visit_Attribute(self, n):
+            self.generic_visit(n)
+            if isinstance(n.ctx, ast.Load) and n.attr in ("_pins", "_wires", "_cables", "_children", "_ports", "_references"):
+                n.attr = n.attr[1:]
+            return n
+    if getattr(g, "inlined_helpers", None):
+        node = Pub().visit(node)
     counter = [0]
 
     def loop_over(coll, q, elem, at):
@@ -230,6 +379,7 @@ def _canon(P, f, keep=()):
         for child in ast.iter_child_nodes(parent):
             child._parent = parent
     node._parent = getattr(f.node, "_parent", None)
+    _number(node)
     v = FuncInfo(f.name, f.qualname, f.module, f.cls, node, f.role, f.prop)
     v.inlined_helpers = list(getattr(g, "inlined_helpers", []))
     return v
@@ -314,7 +464,7 @@ def check_c08(ctx, R):
             isinstance(src, ast.Attribute) and isinstance(src.value, ast.Name) and (lambda ra: ra is not None and norm(ra.value) == "%s.reference" % inst)(
                 reaching_assign(via if via is not None else st_add, src.value.id))))
         bind = via if via is not None else st_add
-        before = bind.lineno < repoint[0].lineno if repoint else True
+        before = _pos(bind) < _pos(repoint[0]) if repoint else True
         if reads_orig and before:
             R.ok("U1", "%s adds the clone to the library of the original reference (`%s`, read before the re-point)" % (mk.qualname, txt), mk.loc(add))
         else:
@@ -375,7 +525,7 @@ def check_c08(ctx, R):
     if w is None:
         raise AnalysisError("anchor vanished: the work loop of uniquify()")
     queue, var, pop = pops[0]
-    seeds = [lp for lp in walk_local(entry.node) if isinstance(lp, ast.For) and lp.lineno < w.lineno and norm(lp.iter).endswith(".children")
+    seeds = [lp for lp in walk_local(entry.node) if isinstance(lp, ast.For) and _pos(lp) < _pos(w) and norm(lp.iter).endswith(".children")
              and _calls(lp, lambda c: _is_method(c, "append") and norm(c.func.value) == queue and c.args and norm(c.args[0]) == norm(lp.target))]
     seed_ok = False
     for lp in seeds:
@@ -429,9 +579,9 @@ def check_c08(ctx, R):
             R.ok("U3", "every iteration queues every child of `%s.reference`" % var, entry.loc(cl_))
         # order: the children are read from the reference AFTER the instance was made unique
         if mk_calls:
-            first = min(c.lineno for c in mk_calls)
+            first = min(_pos(c) for c in mk_calls)
             inside = any(any(p is cl_ for p in parent_chain(c)) for c in mk_calls)
-            if cl_.lineno > first and not inside:
+            if _pos(cl_) > first and not inside:
                 R.ok("U3", "the children are read from the reference after the instance was made unique", entry.loc(cl_))
             else:
                 R.bad("U3", "%s|descent-before-unique" % entry.key, entry.loc(cl_),
@@ -593,7 +743,7 @@ def check_c09(ctx, R):
     elif feeds_ok:
         R.bad("F1", "%s|feeds" % entry.key, entry.loc(w), "flatten feeds its queues in %d place(s); seeding and descent are both needed" % n_feed)
     child_loops = [lp for lp in walk_local(w) if isinstance(lp, ast.For) and norm(lp.iter) == "%s.reference.children" % ivar]
-    seeds = [lp for lp in walk_local(entry.node) if isinstance(lp, ast.For) and lp.lineno < w.lineno and norm(lp.iter).endswith(".children")]
+    seeds = [lp for lp in walk_local(entry.node) if isinstance(lp, ast.For) and _pos(lp) < _pos(w) and norm(lp.iter).endswith(".children")]
     if not seeds or any(isinstance(x, (ast.If, ast.Break, ast.Continue)) for lp in seeds for st in lp.body for x in ast.walk(st)):
         R.bad("F1", "%s|seed" % entry.key, entry.loc(w), "flatten does not seed its queue with every child of the top definition")
     else:
@@ -631,12 +781,12 @@ def check_c09(ctx, R):
         for lp in child_loops:
             names = _calls(lp, lambda c: _is_method(c, "append") and norm(c.func.value) == nq)
             for c in names:
-                if norm(c.args[0]) == "%s.name" % ivar and lp.lineno > c0.lineno:
+                if norm(c.args[0]) == "%s.name" % ivar and _pos(lp) > _pos(c0):
                     R.ok("F1", "children are queued with the parent's name read after the parent was moved (its full path)", entry.loc(c))
                 else:
                     R.bad("F1", "%s|child path" % entry.key, entry.loc(c),
                           "children are queued with `%s`%s: a child's prefix has to be its parent's full path, i.e. `%s.name` read after the parent was renamed by the move"
-                          % (norm(c.args[0]), "" if lp.lineno > c0.lineno else " read before the parent was moved", ivar))
+                          % (norm(c.args[0]), "" if _pos(lp) > _pos(c0) else " read before the parent was moved", ivar))
     # ---- F2: the mover
     e, pfx, top = mv.params
     cfgm = cfg_of(mv.node)
@@ -648,7 +798,7 @@ def check_c09(ctx, R):
             continue
         if norm(addc[0].func.value) != top:
             R.bad("F2", "%s|%s target" % (mv.key, kind), mv.loc(addc[0]), "%s adds the element to `%s`, not to the top definition `%s`" % (mv.qualname, norm(addc[0].func.value), top))
-        elif rems[0].lineno > addc[0].lineno:
+        elif _pos(rems[0]) > _pos(addc[0]):
             R.bad("F2", "%s|%s order" % (mv.key, kind), mv.loc(addc[0]), "%s adds the element to the top before removing it from its parent: the add is refused (it still has a parent)" % mv.qualname)
         else:
             R.ok("F2", "%s: %s is taken out of its parent and added to `%s`" % (mv.qualname, kind, top), mv.loc(addc[0]))
@@ -722,13 +872,16 @@ def check_c09(ctx, R):
         R.bad("F3", "%s|shell not recorded" % entry.key, entry.loc(w), "hierarchical instances are not recorded for removal: they remain in the flattened netlist")
     else:
         lst_ = norm(shells[0].func.value)
-        final = [lp for lp in walk_local(entry.node) if isinstance(lp, ast.For) and norm(lp.iter) == lst_ and lp.lineno > w.lineno
+        final = [lp for lp in walk_local(entry.node) if isinstance(lp, ast.For) and norm(lp.iter) == lst_ and _pos(lp) > _pos(w)
                  and _calls(lp, lambda c: _is_method(c, "remove_child") and c.args and norm(c.args[0]) == norm(lp.target))]
         # recorded on every path that does not leave through the leaf test
         st_sh = _stmt_of(shells[0])
         leaf_exit = [st for st in w.body if isinstance(st, ast.If) and "is_leaf" in norm(st.test) and st.body and isinstance(st.body[-1], ast.Continue)]
         later_exit = [x for st in w.body for x in ast.walk(st) if isinstance(x, (ast.Continue, ast.Break, ast.Return)) and not (leaf_exit and any(x is y for y in ast.walk(leaf_exit[0])))]
-        if final and leaf_exit and not later_exit and st_sh in w.body and st_sh.lineno > leaf_exit[0].lineno:
+        by_paths = _recorded_exactly_for_non_leaves(w, st_sh)
+        if final and by_paths:
+            R.ok("F3", "every hierarchical instance is recorded and removed from the top at the end; leaves are kept", entry.loc(final[0]))
+        elif final and by_paths is None and leaf_exit and not later_exit and st_sh in w.body and _pos(st_sh) > _pos(leaf_exit[0]):
             R.ok("F3", "every hierarchical instance is recorded and removed from the top at the end; leaves are kept", entry.loc(final[0]))
         else:
             R.bad("F3", "%s|shell removal" % entry.key, entry.loc(shells[0]),
@@ -764,7 +917,7 @@ def check_c09(ctx, R):
         d_out = [c for c in disc if norm(c.func.value) == ow and resolve(norm(c.args[0])) == "%s.pins[%s]" % (rd.params[0], pv)]
         moves = [lp for lp in walk_local(pl) if isinstance(lp, ast.For) and lp is not pl and _calls(lp, lambda c: _is_method(c, "connect_pin") and norm(c.func.value) == ow
                                                                                                        and c.args and norm(c.args[0]) == norm(lp.target))]
-        if d_in and d_out and moves and d_in[0].lineno < moves[0].lineno and d_out[0].lineno < moves[0].lineno:
+        if d_in and d_out and moves and _pos(d_in[0]) < _pos(moves[0]) and _pos(d_out[0]) < _pos(moves[0]):
             R.ok("F4", "%s takes the port pin off the inner net and the instance pin off the outer net before merging" % rd.qualname, rd.loc(d_in[0]))
         else:
             R.bad("F4", "%s|boundary pins" % rd.key, rd.loc(pl),
@@ -774,8 +927,8 @@ def check_c09(ctx, R):
             it = norm(mvl.iter)
             tv = norm(mvl.target)
             paired = _calls(mvl, lambda c: _is_method(c, "disconnect_pin") and norm(c.func.value) == iw and c.args and norm(c.args[0]) == tv)
-            first_d = paired[0].lineno if paired else None
-            first_c = _calls(mvl, lambda c: _is_method(c, "connect_pin"))[0].lineno
+            first_d = _pos(paired[0]) if paired else None
+            first_c = _pos(_calls(mvl, lambda c: _is_method(c, "connect_pin"))[0])
             snap_call = isinstance(mvl.iter, ast.Call) and ((norm(mvl.iter.func) in ("list", "tuple") and mvl.iter.args and norm(mvl.iter.args[0]) == "%s.pins" % iw)
                                                            or norm(mvl.iter) == "%s.pins.copy()" % iw)
             if it == "%s.pins" % iw:
